@@ -26,7 +26,7 @@ GROUPS = {
              'eulerpoly', 'zeta', 'siegeltheta'],
     'gamma': ['gamma', 'gamma_halfint_hi', 'rgamma_halfint_hi', 'gamma_big', 'loggamma_halfint_hi', 'factorial_halfint_hi', 'gamma_int', 'loggamma', 'loggamma_big', 'rgamma', 'factorial', 'factorial_int', 'factorial_big',
               'psi', 'beta', 'binomial', 'rf', 'gammaprod', 'superfac', 'fac2', 'binomial_int', 'gamma_vhi', 'gamma_vhi', 'rgamma_vhi'],
-    'zeta': ['zeta', 'zeta_int', 'hurwitz', 'zeta_rs', 'altzeta', 'siegelz', 'primezeta', 'stieltjes', 'zetazero', 'grampoint',
+    'zeta': ['zeta', 'zeta_int', 'stieltjes', 'hurwitz', 'zeta_rs', 'altzeta', 'siegelz', 'primezeta', 'zetazero', 'grampoint',
              'riemannr', 'polylog', 'dirichlet', 'nzeros', 'backlunds', 'zeta_rs_hi', 'siegelz_hi'],
     'ints': ['factorial_big', 'fac2', 'fib_int', 'eulernum', 'eulernum_exact', 'stirling1', 'stirling2', 'stirling1_exact',
              'stirling2_exact', 'bernfrac', 'binomial_int', 'list_primes', 'isprime', 'moebius', 'primepi', 'bell', 'mangoldt'],
